@@ -236,10 +236,17 @@ def stereo_mol_graph_to_rdmol(
                 ]
             )
 
-            if neighbors in {p[1:] for p in a_stereo._perm_atoms()}:
-                rd_atom.SetUnsignedProp("_chiralPermutation", 1)
-            else:
-                rd_atom.SetUnsignedProp("_chiralPermutation", 2)
+            # same neighbour orders as in rdmol2graph (@SP1, @SP2, @SP3)
+            for label, sp_order in (
+                (1, (0, 1, 2, 3)),
+                (2, (0, 2, 1, 3)),
+                (3, (0, 1, 3, 2)),
+            ):
+                if len(neighbors) == 4 and a_stereo == SquarePlanar(
+                    (atom, *[neighbors[i] for i in sp_order]), 0
+                ):
+                    rd_atom.SetUnsignedProp("_chiralPermutation", label)
+                    break
 
         elif a_stereo is not None and isinstance(
             a_stereo, TrigonalBipyramidal
